@@ -189,8 +189,8 @@ CHECKS = {
 
 # dependency clauses (Check.include): rules of another property evaluated as part of this one, because a violation there breaks this property too
 DEPENDS = {
-    'C02': 'C01 (D1 guards, D2 inline matchers)', 'C03': 'C02 (circuit-to-diagram translation, with C01 D1/D2)', 'C04': 'C01 (D3 effect schemas, D4 edge discipline)',
-    'C05': 'C01 (D1, D2) and C07', 'C06': 'C05 (with its dependencies), C11 and C02 (the translation itself)', 'C07': 'C16', 'C08': 'C07 (with C16)', 'C12': 'C01 (D1, D2)', 'C13': 'C09',
+    'C02': 'C01 (D1 guards, D2 inline matchers)', 'C03': 'C02 (circuit-to-diagram translation, with C01 D1/D2) and C14 (the QASM reader and printer of the command line)', 'C04': 'C01 (D3 effect schemas, D4 edge discipline)',
+    'C05': 'C01 (D1, D2) and C07', 'C06': 'C05 (with its dependencies), C11 and C02 (the translation itself)', 'C07': 'C16', 'C08': 'C07 (with C16)', 'C12': 'C01 (D1, D2)', 'C13': 'C09', 'C19': 'C15', 'C20': 'C09',
 }
 for _k, _v in DEPENDS.items():
     CHECKS[_k]['text'] += ' Dependency clause: the rules of %s are evaluated as part of this check (violations are reported with a dep- key prefix).' % _v
@@ -227,6 +227,15 @@ ROUND2 = {
 
 # ---------------------------------------------------------------- round 3 addenda (DESIGN 10.9)
 ROUND3 = {
+    'C05': 'Round 3: every table keyed by the length of a cat_ts result (the alpha table of the dynamic driver) is evaluated arm by arm for every length cat_ts returns (0, 4..7): no reachable cat size panics.',
+    'C07': 'Round 3: the approximation flag is followed through the ring operations with one coefficient of either operand flagged, approximate ZEROS included (found and fixed: a product dropped an approximate zero of its left operand); recognition of sqrt2^p * e^{i k pi/4} on full-width mantissas (found and fixed: 2^64 - 1 was taken for -1); zero / one tests next to one and far outside the float range; signed zeros; conversion of ordinary dyadics to f64.',
+    'C09': 'Round 3: vindex() is observed at every state of the differential exploration (never a live name, above all of them).',
+    'C11': 'Round 3: plug denotes sequential composition, scalar included, on 696 pairs of small diagrams whose seams merge into parallel edges of either colour (both interpreted back ends; linear maps by brute-force contraction).',
+    'C12': 'Round 3: the leftover scalar argument is a concrete angle per world (0, float noise, pi/2^22, 1e-3, pi, -pi/2) and approx::AbsDiff is modelled with its epsilon: 48 worlds; plug as a linear map on parallel-edge seams (as C11).',
+    'C13': 'Round 3: write_graph / read_graph interpreted on a host model of std::fs (target file absent, longer, shorter, empty: afterwards the file holds exactly the encoding and reads back); JsonScalar::from(&Scalar4) and Scalar4::try_from(&JsonScalar) interpreted end to end (json/scalar.rs, json/phase.rs incl. its string formatting and parsing, scalar.rs, dyadic.rs) on all 136 scalars sqrt2^p * e^{i k pi/4}, p from -3001 to 3001: decoded exactly, unflagged; is_one true for 1 only and never panicking.',
+    'C14': 'Round 3: from_qasm_parser interpreted on host objects for the openqasm crate for programs that declare registers and contain no statement (seven register layouts): the circuit has the sum of the qreg sizes; the formatting trait of every placeholder is read ({} vs {:?}) and floats are printed as Rust prints them.',
+    'C18': 'Round 3: graphs whose vertex names have holes; at every reached state every entry of the rank cache is keyed by an edge of the current tree and holds that edge\'s cut rank.',
+    'C20': 'Round 3: diagrams with bare boundary-to-boundary wires next to same-coloured pairs in all three numberings.',
     'C08': 'Round 3: the statement itself on a small scope: tensor.rs is interpreted from its HIR on a host model of ndarray — the graph evaluator (contraction order, seen-degree bookkeeping, index positions, Hadamard normalisation, stored scalar) on both back ends for about 4 000 well-formed small diagrams (0..3 spiders of both colours, every edge pattern, up to three boundaries each way, several boundaries on one spider, closed / disconnected diagrams, isolated spiders, boundaries wired straight to boundaries incl. crossings, cups and caps, circuit-like diagrams with a gadget) under several vertex numberings, in the exact number type and in Complex<f64> (the from_phase / sqrt2_pow impls of tensor.rs interpreted); the circuit evaluator on every supported gate kind on every tuple of distinct qubits of 1..3 wires plus pairs and longer sequences; every entry is compared with a brute-force contraction / the product of the reference gate matrices, axes ordered inputs then outputs; unsupported kinds panic; the QubitOps primitives (ident, delta, cphase, hadamard, delta_at, cphase_at, hadamard_at, plug_n_qubits on its documented domain) against their definitions; compare / scalar_compare end to end on (diagram, circuit) pairs with known relation. The per-gate table and the decision-structure rules are the size-independent fallback.',
 }
 
